@@ -5,13 +5,14 @@
    not fix the order in which PointGroup.symmetries lists the elements, nor which of two equivalent star points is kept).
    Matrices are in the frame of the family (see PointGroupAlg), tensors are frame components, k-points numerators. *)
 EXTENDS PointGroupAlg, Json, IOUtils, TLCExt
-VARIABLE i
+VARIABLES i, rec          \* rec = the record itself: read once in the initial predicate, materialised in the state
 Recs == JsonDeserialize(IOEnv.TRACE_FILE).recs
-Rec == Recs[i]
-Seq1(s) == [k \in 1..Len(s) |-> s[k]]
-Mat(m) == [a \in 1..3 |-> [b \in 1..3 |-> m[a][b]]]
+Rec == rec
+(* JSON-derived values are lazy (re-evaluated at every use): every converted value is forced once with TLCEval *)
+Seq1(s) == TLCEval([k \in 1..Len(s) |-> s[k]])
+Mat(m) == TLCEval(<<<<m[1][1], m[1][2], m[1][3]>>, <<m[2][1], m[2][2], m[2][3]>>, <<m[3][1], m[3][2], m[3][3]>>>>)
 Elem(e) == [R |-> Mat(e.R), inv |-> e.inv, tr |-> e.tr]
-Elems(s) == [k \in 1..Len(s) |-> Elem(s[k])]
+Elems(s) == TLCEval([k \in 1..Len(s) |-> Elem(s[k])])
 Tens(t) == [rank |-> t.rank, re |-> Seq1(t.re), im |-> Seq1(t.im)]
 Trans(t) == [factor |-> t.factor, conj |-> t.conj, axes |-> Seq1(t.axes)]
 LatOf(l) == [fam |-> l.fam, A |-> Mat(l.A)]
@@ -19,9 +20,9 @@ Vec(v) == <<v[1], v[2], v[3]>>
 
 (* fn = "group": PointGroup(generators) (random generators, the operations of a space group, a subset of them) *)
 GroupClauses ==
-   LET gen == [k \in 1..Len(Rec.gens) |-> PointSymmetry(Mat(Rec.gens[k].R), Rec.gens[k].TR)]
+   LET gen == TLCEval([k \in 1..Len(Rec.gens) |-> PointSymmetry(Mat(Rec.gens[k].R), Rec.gens[k].TR)])
        G == Elems(Rec.out)  lat == LatOf(Rec.lat)
-       GG == Generate(gen) IN                                   \* evaluated once per record
+       GG == TLCEval(Generate(gen)) IN                          \* evaluated once per record
    [ equals_spec |-> Len(G) = Len(GG) /\ SameSet(G, GG),
      closed |-> Closed(G),
      identity |-> HasIdentity(G),
@@ -38,7 +39,7 @@ MulClauses ==
    [ equals_spec |-> Elem(Rec.out) = Mul(Elem(Rec.a), Elem(Rec.b)),
      element |-> IsElement(Elem(Rec.out)) ]
 StarClauses ==
-   LET G == Elems(Rec.G)  lat == LatOf(Rec.lat)  st == [n \in 1..Len(Rec.out) |-> Vec(Rec.out[n])]  k == Vec(Rec.k) IN
+   LET G == Elems(Rec.G)  lat == LatOf(Rec.lat)  st == TLCEval([n \in 1..Len(Rec.out) |-> Vec(Rec.out[n])])  k == Vec(Rec.k) IN
    [ each_image_once |-> StarOnce(st, G, k, Rec.N, lat),
      size_of_spec_star |-> Len(st) = Len(Star(G, k, Rec.N, lat)),
      divides_order |-> NoDuplicates(G) => Len(G) % Len(st) = 0 ]
@@ -51,7 +52,7 @@ ActLawClauses ==
      equals_spec |-> Tens(Rec.out_gh) = Act(Mul(g, h), T, tTR, tInv) /\ Tens(Rec.out_g_h) = Act(g, Act(h, T, tTR, tInv), tTR, tInv) ]
 (* symmetrize_tensor / PointGroup.symmetrize(EnergyResult), times the group size *)
 SymmClauses ==
-   LET G == Elems(Rec.G)  T == Tens(Rec.T)  tTR == Trans(Rec.tTR)  tInv == Trans(Rec.tInv)  S == Tens(Rec.out)
+   LET G == Elems(Rec.G)  T == Tens(Rec.T)  tTR == Trans(Rec.tTR)  tInv == Trans(Rec.tInv)  S == TLCEval(Tens(Rec.out))
        ok == ValidPair(tTR, tInv) /\ Closed(G) /\ NoDuplicates(G) IN
    [ equals_spec |-> S = Symmetrize(G, T, tTR, tInv),
      idempotent |-> ok => Tens(Rec.out2) = TScale(S, Len(G)),
@@ -85,7 +86,7 @@ Clauses == CASE Rec.fn = "group" -> GroupClauses
              [] Rec.fn = "dict" -> DictClauses
              [] Rec.fn = "tprod" -> TProdClauses
              [] Rec.fn = "rot" -> RotClauses
-Report == \A n \in DOMAIN Clauses : Clauses[n] \/ PrintT(<<"BAD", i, n>>)
-RecInit == i \in 1..Len(Recs)
-RecSpec == RecInit /\ [][UNCHANGED i]_i
+Report == LET C == Clauses IN \A n \in DOMAIN C : C[n] \/ PrintT(<<"BAD", i, n>>)      \* the table is evaluated once
+RecInit == \E rs \in {Recs} : i \in 1..Len(rs) /\ rec = rs[i]
+RecSpec == RecInit /\ [][UNCHANGED <<i, rec>>]_<<i, rec>>
 =============================================================================
